@@ -37,7 +37,9 @@ def run_one(path, prop, benign):
         viol = [l.strip() for l in r.stdout.splitlines() if l.startswith("  violated")]
         if benign:
             ok = r.returncode == 0
-            return {"mutant": name, "result": "quiet" if ok else "FALSE-ALARM", "exit": r.returncode, "violations": viol[:3]}
+            bad = [l.strip() for l in r.stdout.splitlines() if l.startswith("PROP") and " exit=0" not in l]
+            return {"mutant": name, "result": "quiet" if ok else ("FALSE-ALARM" if r.returncode == 1 else "BROKEN"), "exit": r.returncode,
+                    "violations": [re.sub(r"/tmp/rainmut\.[^/]+/", "", v)[:300] for v in (bad + viol)[:6]]}
         ok = r.returncode == 1
         return {"mutant": name, "result": "killed" if ok else "SURVIVED", "exit": r.returncode,
                 "violations": [re.sub(r"/tmp/rainmut\.[^/]+/", "", v)[:300] for v in viol[:3]]}
@@ -58,19 +60,24 @@ def main():
     for f in files:
         n = os.path.basename(f)
         benign = n.startswith("benign_")
-        m = re.match(r"(?:benign_)?(C\d+)_", n)
+        m = re.match(r"(?:benign_)?(C\d+|ALL)_", n)
         if not m:
             continue
-        if prop != "all" and m.group(1) != prop:
+        target = m.group(1)
+        if target == "ALL":
+            # behaviour-preserving refactoring: every property (or the requested one) must stay quiet
+            work.append((f, "all" if prop == "all" else prop, True))
             continue
-        work.append((f, m.group(1), benign))
+        if prop != "all" and target != prop:
+            continue
+        work.append((f, target, benign))
     with ThreadPoolExecutor(max_workers=jobs) as ex:
         res = list(ex.map(lambda w: run_one(*w), work))
     summ = {"applied": sum(1 for r in res if r["result"] != "skipped"),
             "killed": sum(1 for r in res if r["result"] == "killed"),
             "benign_quiet": sum(1 for r in res if r["result"] == "quiet"),
             "survived": [r["mutant"] for r in res if r["result"] == "SURVIVED"],
-            "false_alarms": [r["mutant"] for r in res if r["result"] == "FALSE-ALARM"],
+            "false_alarms": [r["mutant"] for r in res if r["result"] in ("FALSE-ALARM", "BROKEN")],
             "skipped": [r["mutant"] for r in res if r["result"] == "skipped"],
             "details": res}
     for r in res:
